@@ -232,6 +232,7 @@ func ruleGate(c *Ctx) {
 		return
 	}
 	l := c.L
+	b.resolverAndMergeRefusals(l, "R-GATE")
 	b.decodeRefusals(l, "R-GATE", []*ssa.Function{b.method(b.Lib, "lazyNode", "UnmarshalJSON"), b.method(b.Lib, "partialDoc", "UnmarshalJSON"), b.method(b.Lib, "partialArray", "UnmarshalJSON")})
 	sinks := b.codecSinks(l)
 	var sinkNames []string
